@@ -371,6 +371,9 @@ func parseAux(aux []byte) ([]sam.Aux, error) {
 				i += j + 1
 			case 'B':
 				length := binary.LittleEndian.Uint32(aux[i+4 : i+8])
+				if jumps[aux[i+3]] <= 0 {
+					return nil, fmt.Errorf("bam: invalid array type for aux data: %q", aux[i+3])
+				}
 				j = int(length)*jumps[aux[i+3]] + int(unsafe.Sizeof(length)) + 4
 				if j < 0 || i+j < 0 || i+j > len(aux) {
 					return nil, fmt.Errorf("bam: invalid array length for aux data: %d", length)
